@@ -92,8 +92,13 @@ func rhRun(in rhInput) (ok bool, why string, files int) {
 		if resp := send(fmt.Sprintf("start %d", r.Thresh)); resp != "<nil>" {
 			return false, "StartRecording failed: " + strings.TrimSpace(resp), 0
 		}
-		for _, v := range r.Frames {
-			send(fmt.Sprintf("write %d", v))
+		if len(r.Frames) > 1000 {
+			// (a long recording holds the values j%60000+1: written by the driver in one go)
+			send(fmt.Sprintf("writen %d %d", len(r.Frames), r.Frames[0]-1))
+		} else {
+			for _, v := range r.Frames {
+				send(fmt.Sprintf("write %d", v))
+			}
 		}
 		if resp := send("stop"); resp != "<nil>" {
 			return false, "StopRecording failed: " + strings.TrimSpace(resp), 0
@@ -147,7 +152,7 @@ func rhRun(in rhInput) (ok bool, why string, files int) {
 		}
 		r.Close()
 		if fmt.Sprint(got) != fmt.Sprint(want[i].Frames) {
-			ok, why = false, why+fmt.Sprintf(" [file %d holds %v, written %v]", i, got, want[i].Frames)
+			ok, why = false, why+fmt.Sprintf(" [file %d holds %d frames %s, written %d frames %s]", i, len(got), headTail(got), len(want[i].Frames), headTail(want[i].Frames))
 		}
 	}
 	left, _ := filepath.Glob(filepath.Join(recDir, "*.temp*"))
@@ -157,10 +162,31 @@ func rhRun(in rhInput) (ok bool, why string, files int) {
 	return ok, why, len(names)
 }
 
+func headTail(v []int) string {
+	if len(v) <= 12 {
+		return fmt.Sprint(v)
+	}
+	return fmt.Sprint(v[:6]) + ".." + fmt.Sprint(v[len(v)-6:])
+}
+
 func init() {
 	runners["RECHDR"] = func(rng *rand.Rand, n int, tier string, emit func(Case)) {
 		for i := 0; i < n; i++ {
 			in := rhInput{Const: rng.Intn(3) == 0}
+			if i == 1 {
+				// one very long recording (more frames than a 16-bit counter holds, far more than a minute of them),
+				// the next one started straight after it was stopped: both must decode to exactly their frames
+				long := rhRec{Thresh: 2900}
+				for j := 0; j < 65600; j++ {
+					long.Frames = append(long.Frames, j%60000+1)
+				}
+				in.Recs = []rhRec{long, {Thresh: 3012, Frames: []int{7, 8, 9}}, {Thresh: 0, Frames: []int{11}}}
+				ok, why, files := rhRun(in)
+				emit(Case{Coq: fmt.Sprintf("mkLag %s %d %d", coqBool(ok), 0, files), Input: map[string]interface{}{"constant_recorder": in.Const, "recordings": "65600 frames (values j%60000+1), then [7 8 9], then [11]"},
+					Impl: map[string]interface{}{"ok": ok, "why": why, "files": files},
+					Tags: []string{"long-recording-then-next", fmt.Sprintf("const=%v", in.Const)}, Nontriv: true, Key: fmt.Sprint("rechdr-long", in.Const)})
+				continue
+			}
 			if i%4 == 3 {
 				in.NameLen = []int{255, 256, 300}[(i/4)%3]
 			}
